@@ -141,6 +141,16 @@ def campaign(c):
                 if f.get('name') != sh_hex(name + b' ' * (15 - ln) + bytes([suffix])):
                     bad(c, 'netbios-encoding', 'NetBIOS name does not decode to the padded name and suffix', rep)
             c.case(('nb', ln, suffix), dict(kind='netbios', len=ln) if suffix == 0 and ln % 6 == 0 else None)
+    # every one-byte name and the names with a conventional meaning (wildcard, browser election, ...)
+    special = [bytes([x]) for x in range(256)] + [b'**', b'*SMBSERVER', b'WORKGROUP', b'\x01\x02__MSBROWSE__\x02', b'*' * 15, b'* ', b' *', b'*\x00']
+    for name in special:
+        for suffix in ([0, 0x20] if len(name) == 1 else [0, 0x1d, 0x20]):
+            res, req = call_both(c, [['netbios::name::encode', 'suffix=u8:%d' % suffix, '-=' + s(name)]])
+            b = val_bytes(res[0])
+            f = kv(parse(c, 'netbios', b or b''))
+            if f.get('name') != sh_hex(name + b' ' * (15 - len(name)) + bytes([suffix])):
+                bad(c, 'netbios-encoding', 'NetBIOS name %r does not decode to the padded name and suffix' % name, dict(req=req))
+            c.case(('nbs', name, suffix), None)
     # dhcp header
     for i in range(60 if c.quick else 1500):
         r = c.rng.fork('dhcp%d' % i)
